@@ -1,0 +1,7 @@
+//go:build !verif
+// +build !verif
+
+package tensor
+
+func verifHookReturnInts(is []int) {}
+func verifHookBorrowInts(is []int) {}
